@@ -183,22 +183,34 @@ def pAction : PM (SAction Float) := do
   let r ← pSRhs
   return if k = "=" then .set f r else .append f r
 
-/-- one more `execute` call on the same engine after the caller replaced top-level facts
-(`fresh`: in a new `Facts` object with the same content — the same thing to model and oracle) -/
+/-- one more `execute` call on the same engine after the caller edited the store (`fresh`: the content
+was first moved into a new `Facts` object — by `add_value`, `merge`, `snapshot`/`restore` or
+`to_context`/`from_context`: the same thing to model and oracle) -/
 structure Phase where
   fresh : Bool
-  sets : List (Str × Val Float)
+  ops : List (CallerOp Float)
 
 structure Case where
   grl : Bool
   facts : Facts Float
   rules : List (SRule Float)
   maxCycles : Nat := 1
+  /-- bit 0: engine built by `RustRuleEngine::new` (default configuration); the other bits select twin
+  ways of building the same engine / rules / facts and do not concern the model -/
+  variant : Nat := 0
   phases : List Phase := []
 
-/-- `Facts::add_value` for every listed fact -/
-def applySets (f : Facts Float) (sets : List (Str × Val Float)) : Facts Float :=
-  sets.foldl (fun acc (k, v) => insertKV acc k v) f
+/-- the cycle bound the engine runs with -/
+def Case.cyclesBound (c : Case) : Nat := if c.variant % 2 == 1 then defaultMaxCycles else c.maxCycles
+
+def pCallerOp : PM (CallerOp Float) := do
+  let t ← tok
+  match t.front with
+  | '-' => return .remove (← strOfHex (t.drop 1).toString)
+  | '!' => return .clear
+  | '@' => do let p ← strOfHex (t.drop 1).toString; return .setNested p (← pValue)
+  | '=' => do let k ← strOfHex (t.drop 1).toString; return .set k (← pValue)
+  | _ => do let k ← strOfHex t; return .add k (← pValue)
 
 def pCase : PM Case := do
   let g ← tok
@@ -215,17 +227,18 @@ def pCase : PM Case := do
     | t :: _ => pure (some t.front)
     | [] => pure none
   let maxCycles ← (do if (← peek) == some 'M' then pCount 'M' else pure 1)
+  let variant ← (do if (← peek) == some 'V' then pCount 'V' else pure 0)
   let phases ← (do
     if (← peek) == some 'P' then
       let k ← pCount 'P'
       rep k (do
         let t ← tok
         let n ← natOf (t.drop 1).toString
-        if t.front != 'p' && t.front != 'w' then failure
-        let sets ← rep n (do let k ← strOfHex (← tok); let v ← pValue; pure (k, v))
-        pure ({ fresh := t.front == 'w', sets := sets } : Phase))
+        if !("pwmsx".toList.contains t.front) then failure
+        let ops ← rep n pCallerOp
+        pure ({ fresh := t.front != 'p', ops := ops } : Phase))
     else pure [])
-  return { grl := g = "G1", facts := facts, rules := rules, maxCycles := maxCycles, phases := phases }
+  return { grl := g = "G1", facts := facts, rules := rules, maxCycles := maxCycles, variant := variant, phases := phases }
 
 def runP {α} (p : PM α) (ts : List String) : Option α :=
   match p.run ts with
@@ -289,12 +302,7 @@ def showRun (r : PassResult Float) (withFirings : Bool) : String :=
 /-- the calls of a case: the first on the initial facts, each later one on the facts the previous call
 left, with the caller's replacements applied; the engine carries nothing else from call to call -/
 def modelRuns (c : Case) : List (PassResult Float) :=
-  let rules := c.rules.map compileRule
-  let first := cycles fops c.maxCycles c.facts rules
-  let (_, rs) := c.phases.foldl (fun (acc : PassResult Float × List (PassResult Float)) ph =>
-      let r := cycles fops c.maxCycles (applySets acc.1.final ph.sets) rules
-      (r, acc.2 ++ [r])) (first, [first])
-  rs
+  calls fops c.cyclesBound (c.rules.map compileRule) c.facts (c.phases.map (·.ops))
 
 def modelLine (line : String) : String :=
   match parseCase line with
@@ -398,7 +406,7 @@ def judgeRun (name : String) (c : Case) (start : Facts Float) (r : Run) : Acc :=
   let okRun := r.status == "ok"
   let mut considered := 0
   let mut stop := false
-  for cycle in [0:c.maxCycles] do
+  for cycle in [0:c.cyclesBound] do
     if stop || acc.fail.isSome then break
     let mut firedInCycle := false
     for rule in c.rules do
@@ -449,7 +457,7 @@ def judgeStream (name : String) (c : Case) (runs : List Run) : Acc := Id.run do
     acc := { fail := a.fail, tags := acc.tags ++ a.tags ++ (if i > 0 && a.tags.contains "judged" then ["judged_later_call"] else []) }
     match phases with
     | ph :: rest =>
-      start := applySets r.final ph.sets
+      start := applyCallerOps r.final ph.ops
       phases := rest
     | [] => pure ()
     i := i + 1
@@ -486,7 +494,9 @@ def oracleLine (line : String) : String :=
               ++ [s!"status_{st}", s!"rules{c.rules.length}"]
               ++ (if !o.g.isEmpty then ["grl"] else [])
               ++ (if o.c.any (·.firings.length > 0) then ["fired"] else [])
-              ++ (if c.maxCycles > 1 then [s!"cycles{c.maxCycles}"] else [])
+              ++ (if c.cyclesBound > 1 then [s!"cycles{c.cyclesBound}"] else [])
+              ++ (if c.variant > 0 then ["variant"] ++ ((List.range 9).filter (fun b => (c.variant / 2 ^ b) % 2 == 1)).map (fun b => s!"variant_bit{b}") else [])
+              ++ (if c.phases.any (fun ph => ph.ops.any (fun o => match o with | .add _ _ => false | _ => true)) then ["caller_ops"] else [])
               ++ (if c.phases.length > 0 then [s!"calls{ncalls}"] else [])
               ++ (if judged > 0 && (a.tags.contains "readback" || (a.tags.filter (fun t => t == "leafT" || t == "leafF")).length ≥ 2)
                   then ["nontrivial"] else [])
